@@ -140,6 +140,15 @@ zix_path_root_path_range(const char* const path)
            : zix_make_range(root.name.begin, root.name.end + dir_len);
 }
 
+ZIX_PURE_FUNC static size_t
+zix_path_relative_path_begin(const char* const path)
+{
+  // The relative path starts after the root name and every root separator
+  const ZixRootSlices root = zix_path_root_slices(path);
+
+  return zix_is_empty_range(root.dir) ? root.name.end : root.dir.end;
+}
+
 ZIX_PURE_FUNC static ZixIndexRange
 zix_path_parent_path_range(const ZixStringView path)
 {
@@ -618,9 +627,9 @@ zix_path_relative_path(const char* const path)
 {
   const ZixStringView path_view = zix_string(path);
   const size_t        path_len  = path_view.length;
-  const ZixIndexRange root      = zix_path_root_path_range(path);
+  const size_t        begin     = zix_path_relative_path_begin(path);
 
-  return range_string_view(path, zix_make_range(root.end, path_len));
+  return range_string_view(path, zix_make_range(begin, path_len));
 }
 
 ZixStringView
@@ -670,7 +679,7 @@ zix_path_has_root_directory(const char* const path)
 bool
 zix_path_has_relative_path(const char* const path)
 {
-  return path && path[zix_path_root_path_range(path).end];
+  return path && path[zix_path_relative_path_begin(path)];
 }
 
 bool
